@@ -968,7 +968,7 @@ package mcp
 //  - (C08) with an event store and a pre-2026-07-28 peer the bytes are appended to the store first and then handed
 //    to deliverLocked - the same bytes, both inside the stream's critical section - with the event id made from the
 //    stream id and the stream's next index; a stream whose last response went out is removed from the table.
-//@ func (*streamableServerConn).Write [C10, C08]
+//@ func (*streamableServerConn).Write [C10, C08, C02]
 //@   track deliverLocked as deliver
 //@   track Append as store
 //@   track formatEventID as eventID
@@ -1088,4 +1088,30 @@ package mcp
 //@   modifies *
 //@   callee yieldEvent: modifies *
 //@   callee yield: modifies *
+//@   track ReadBytes as read
 //@   assert at call yieldEvent: @only-terminated-events-are-dispatched len(local(line)) == 0
+//@   assert at call yieldEvent: @nothing-dispatched-after-a-read-error lastResult(read, 1) == nil || errIs(lastResult(read, 1), io.EOF)
+
+// callTool (C19, required members): a successful tool result never leaves the server with a null content array -
+// unless it is an input-required result, which carries no content.
+//@ func (*Server).callTool [C19]
+//@   callee st.handler: modifies *
+//@   requires s != nil && req != nil && req.Params != nil
+//@   modifies *
+//@   ensures @content-array-is-never-null result.1 == nil && result.0 != nil && result.0.resultType != resultTypeInputRequired ==> result.0.Content != nil
+
+// Client.Connect (C07): the version requested is never empty - no options, or options without a version, mean the
+// latest version, which starts with the stateless server/discover probe; the legacy initialize that follows a failed
+// probe asks for 2025-11-25; an explicitly requested version is used as given.
+//@ func (*Client).Connect [C07]
+//@   track connect as dial
+//@   track discover as probe
+//@   track capabilities as caps
+//@   track (*ClientSession).startKeepalive as keepalive
+//@   snapshot dialled after call connect
+//@   ghost wanted := at(dialled, opts.ProtocolVersion)
+//@   requires c != nil
+//@   modifies *
+//@   assert at call capabilities: @requested-version-is-never-empty $1 != ""
+//@   assert at call capabilities: @explicit-legacy-version-is-used-as-given opts != nil && wanted != "" && wanted < protocolVersion20260728 ==> $1 == wanted
+//@   assert at call capabilities: @default-falls-back-to-the-last-legacy-version (opts == nil || wanted == "") ==> $1 == protocolVersion20251125
